@@ -712,6 +712,49 @@ func runD70Isolated(env *vh.Env) ([]d70Result, string) {
 	return d, msg + ": " + crashText(errb.String())
 }
 
+// runD71Isolated runs the D71 replay (Close() while sending) in its own process.  Its race reports (the
+// replay races Close() against the senders on purpose) go to a log of their own and are counted.
+func runD71Isolated(env *vh.Env) (d71Result, string, int) {
+	var d d71Result
+	exe, err := os.Executable()
+	if err != nil {
+		return d, err.Error(), 0
+	}
+	outFile := tmpName(os.TempDir(), "d71.json")
+	defer os.Remove(outFile)
+	ctx, cancel := context.WithTimeout(context.Background(), 10*time.Minute)
+	defer cancel()
+	cmd := exec.CommandContext(ctx, exe, "-child-d71", "-child-out", outFile, "-tier", env.Tier, "-seed", fmt.Sprint(env.Seed), "-repo", env.Repo)
+	racePrefix := ""
+	if p := os.Getenv("C06_RACE_LOG"); p != "" {
+		racePrefix = p + "-d71"
+		cmd.Env = append(os.Environ(), "GORACE=log_path="+racePrefix+" halt_on_error=0 exitcode=0 history_size=3")
+	}
+	var errb tailBuffer
+	cmd.Stderr = &errb
+	cmd.Stdout = &errb
+	runErr := cmd.Run()
+	races := 0
+	if racePrefix != "" {
+		files, _ := filepath.Glob(racePrefix + "*")
+		for _, f := range files {
+			if b, err := os.ReadFile(f); err == nil {
+				races += strings.Count(string(b), "DATA RACE")
+			}
+			os.Remove(f)
+		}
+	}
+	b, rerr := os.ReadFile(outFile)
+	if rerr == nil && json.Unmarshal(b, &d) == nil {
+		return d, "", races
+	}
+	msg := "the process running the D71 replay died"
+	if runErr != nil {
+		msg += " (" + runErr.Error() + ")"
+	}
+	return d, msg + ": " + crashText(errb.String()), races
+}
+
 // runD42Isolated runs the D42 replay in its own process.
 func runD42Isolated(env *vh.Env) (d42Result, string) {
 	var d d42Result
